@@ -39,7 +39,9 @@ fn created_objects_survive_save_and_reload() {
         let written = tail.lines().skip_while(|l| !l.ends_with(" obj")).take(3).collect::<Vec<_>>().join("\\n");
         let file2 = FileOptions::uncached().load(saved).unwrap();
         let back = file2.resolver().resolve(r);
-        let ok = matches!(&back, Ok(q) if *q == body);
+        // since /repo e0f1f98 resolve() follows a reference-valued object (within its depth budget)
+        let expected = if let Primitive::Reference(t) = &body { file2.resolver().resolve(*t).unwrap() } else { body.clone() };
+        let ok = matches!(&back, Ok(q) if *q == expected);
         println!("{:<40} written as {:<34} reload: {}", format!("{:?}", body).replace('\n', " "), format!("{:?}", written), if ok { "ok".to_string() } else { format!("MISMATCH {:?}", back.map_err(|e| e.to_string())) });
         if !ok { bad.push(format!("{:?}", body)); }
     }
